@@ -4,9 +4,11 @@
 // exactly as it was before the command - no partially applied field ... in the main process and in every worker".
 //   r is Err  ==>  every by-value field of the live listener (config, router, rustls context, ...) is unchanged
 // Hand-written: opaque dependency types and shims (ASSUMED contracts). Real text: //@item, //@fn.
-// The answer-template registry sits behind Rc<RefCell<_>> (interior mutability): Verus cannot speak about it; the
-// staging regions that compute the fallible rebuilds are replaced by shims that take `&self.config` only, and the
-// extractor checks syntactically (cut_readonly) that the dropped text is read-only on `self`.
+// The answer-template registry sits behind Rc<RefCell<HttpAnswers>>. Inside update_config nothing else holds a
+// borrow of it, so the cell is modelled as an exclusively owned cell (`borrow_mut(&mut self) -> &mut T`): the real
+// text `self.answers.borrow_mut()...` then type-checks unchanged and the registry is an ordinary part of `*self`
+// for the frame condition (ASSUMED: no other alias of the Rc is touched during the call). The rustls staging
+// region is still replaced by a shim after a syntactic read-only check of the dropped text (cut_readonly).
 use vstd::prelude::*;
 use std::marker::PhantomData;
 verus! {
@@ -15,19 +17,49 @@ verus! {
 #[verifier::reject_recursive_types(K)]
 #[verifier::reject_recursive_types(V)]
 pub struct BTreeMap<K, V> { _p: PhantomData<(K, V)> }
-#[verifier::external_body]
-#[verifier::reject_recursive_types(T)]
-pub struct Rc<T> { _p: PhantomData<T> }
+// Rc<RefCell<T>> as an exclusively owned cell (see the header comment)
+pub struct VerifCell<T> { pub verif_value: T }
+impl<T> VerifCell<T> {
+    pub fn borrow_mut(&mut self) -> (r: &mut T)
+        ensures *r == old(self).verif_value, final(self).verif_value == *final(r),
+    { &mut self.verif_value }
+}
 #[verifier::external_body]
 #[verifier::reject_recursive_types(T)]
 pub struct Arc<T> { _p: PhantomData<T> }
-#[verifier::external_body]
-#[verifier::reject_recursive_types(T)]
-pub struct RefCell<T> { _p: PhantomData<T> }
 #[verifier::external_body] #[derive(Clone, Copy)] pub struct SocketAddr { _p: () }
 #[verifier::external_body] #[derive(Clone, Copy)] pub struct StdSocketAddr { _p: () }
 #[verifier::external_body] #[derive(Clone, Copy)] pub struct SocketAddress { _p: () }
-#[verifier::external_body] pub struct HttpAnswers { _p: () }
+// HttpAnswers (kawa_h1/answers.rs) narrowed: the per-cluster override map and everything else
+#[verifier::external_body] pub struct ClusterAnswers { _p: () }
+#[verifier::external_body] pub struct ListenerTemplates { _p: () }
+pub struct HttpAnswers { pub cluster_answers: ClusterAnswers, pub verif_listener_templates: ListenerTemplates }
+#[verifier::external_body] pub struct TemplateError { _p: () }
+impl HttpAnswers {
+    // template parsing: a pure, fallible function of the merged map
+    #[verifier::external_body]
+    pub fn new(m: &BTreeMap<String, String>) -> Result<HttpAnswers, (String, TemplateError)> { unimplemented!() }
+}
+// `std::mem::take` on the override map (std: returns the value, leaves Default::default() behind)
+pub uninterp spec fn spec_empty_cluster_answers() -> ClusterAnswers;
+#[verifier::external_body]
+pub fn verif_take(x: &mut ClusterAnswers) -> (r: ClusterAnswers) ensures r == *old(x), *final(x) == spec_empty_cluster_answers() { unimplemented!() }
+// `.map_err(|(name, error)| ListenerError::TemplateParse(name, error))`
+#[verifier::external_body]
+pub fn verif_template_err(x: Result<HttpAnswers, (String, TemplateError)>) -> (r: Result<HttpAnswers, ListenerError>)
+    ensures match x { Ok(a) => r == Ok::<HttpAnswers, ListenerError>(a), Err(_) => r is Err }
+{ unimplemented!() }
+// clones / merges on LOCAL copies inside the staging block
+impl<K, V> BTreeMap<K, V> { #[verifier::external_body] pub fn clone(&self) -> (r: Self) ensures r == *self { unimplemented!() } }
+#[verifier::external_body]
+pub fn verif_option_answers_clone(x: &Option<CustomHttpAnswers>) -> (r: Option<CustomHttpAnswers>) ensures r == *x { unimplemented!() }
+#[verifier::external_body]
+pub fn merge_custom_http_answers(target: &mut Option<CustomHttpAnswers>, patch: &CustomHttpAnswers) { unimplemented!() }
+#[verifier::external_body]
+pub fn merge_legacy_into_map(target: &mut BTreeMap<String, String>, legacy: &CustomHttpAnswers) { unimplemented!() }
+// `for (code, body) in &patch.answers { if !body.is_empty() { answers.insert(code.clone(), body.clone()); } }` (BTreeMap iteration)
+#[verifier::external_body]
+pub fn verif_merge_templates(target: &mut BTreeMap<String, String>, patch: &BTreeMap<String, String>) { unimplemented!() }
 #[verifier::external_body] pub struct Router { _p: () }
 #[verifier::external_body] pub struct MioTcpListener { _p: () }
 #[verifier::external_body] pub struct CachedTags { _p: () }
@@ -60,21 +92,10 @@ pub fn verif_string_clone(s: &String) -> (r: String) ensures r == *s { unimpleme
 #[verifier::external_body]
 pub fn verif_vec_string_clone(s: &Vec<String>) -> (r: Vec<String>) ensures r == *s { unimplemented!() }
 
-// The staging regions (cut_readonly): they read `self.config` (and, for HTTPS, clone the resolver Arc) and build
-// the merged legacy answers, the merged template map and the rebuilt registry / rustls context, or refuse.
-#[verifier::external_body]
-pub fn verif_stage_answers_http(config: &HttpListenerConfig, patch: &UpdateHttpListenerConfig)
-    -> Result<(Option<CustomHttpAnswers>, BTreeMap<String, String>, HttpAnswers), ListenerError> { unimplemented!() }
-#[verifier::external_body]
-pub fn verif_stage_answers_https(config: &HttpsListenerConfig, patch: &UpdateHttpsListenerConfig)
-    -> Result<(Option<CustomHttpAnswers>, BTreeMap<String, String>, HttpAnswers), ListenerError> { unimplemented!() }
+// The rustls staging region (cut_readonly): reads `self.config`, clones the resolver Arc, builds the context or refuses.
 #[verifier::external_body]
 pub fn verif_stage_rustls(config: &HttpsListenerConfig, alpn: &AlpnProtocols, resolver: &Arc<MutexCertificateResolver>)
     -> Result<Arc<RustlsServerConfig>, ListenerError> { unimplemented!() }
-// installing the rebuilt registry: `*self.answers.borrow_mut() = rebuilt` after moving the per-cluster overrides
-// over (interior mutability; happens after the last Err exit)
-#[verifier::external_body]
-pub fn verif_install_answers(cell: &Rc<RefCell<HttpAnswers>>, rebuilt: HttpAnswers) { unimplemented!() }
 impl Router {
     #[verifier::external_body]
     pub fn refresh_inheriting_hsts(&mut self, hsts: Option<&HstsConfig>) -> usize { unimplemented!() }
@@ -86,6 +107,7 @@ pub fn verif_answers_patch_is_empty(m: &BTreeMap<String, String>) -> bool { unim
 //@global-subst "::prost::alloc::string::String" => "String"
 //@global-subst "::prost::alloc::vec::Vec" => "Vec"
 //@global-subst "::prost::alloc::collections::BTreeMap" => "BTreeMap"
+//@global-subst "Rc<RefCell<HttpAnswers>>" => "VerifCell<HttpAnswers>"
 //@item command/src/proto/command.rs struct HttpListenerConfig
 //@item command/src/proto/command.rs struct HttpsListenerConfig
 //@item command/src/proto/command.rs struct UpdateHttpListenerConfig
@@ -101,9 +123,13 @@ impl HttpListener {
     //@  subst "validate_h2_flood_knobs_http(patch)?" => "verif_lift(validate_h2_flood_knobs_http(patch))?"
     //@  subst "validate_sozu_id_header(hdr)?" => "verif_lift(validate_sozu_id_header(hdr))?"
     //@  subst "!patch.answers.is_empty()" => "!verif_answers_patch_is_empty(&patch.answers)"
-    //@  cut_readonly "let mut http_answers = self.config.http_answers.clone();" .. "} else {" => "Some(verif_stage_answers_http(&self.config, patch)?)\n        "
+    //@  subst "self.config.http_answers.clone()" => "verif_option_answers_clone(&self.config.http_answers)"
+    //@  subst "crate::sozu_command::state::merge_custom_http_answers(" => "merge_custom_http_answers("
+    //@  subst "for (code, body) in &patch.answers {\n                if !body.is_empty() {\n                    answers.insert(code.clone(), body.clone());\n                }\n            }" => "verif_merge_templates(&mut answers, &patch.answers);"
+    //@  subst "crate::protocol::http::answers::merge_legacy_into_map(" => "merge_legacy_into_map("
+    //@  resubst "HttpAnswers::new\\(&answers_map\\)\\s*\\.map_err\\(\\|\\(name, error\\)\\| ListenerError::TemplateParse\\(name, error\\)\\)" => "verif_template_err(HttpAnswers::new(&answers_map))"
+    //@  substall "std::mem::take(" => "verif_take("
     //@  substall "v.to_owned()" => "verif_string_clone(v)"
-    //@  cut "let preserved = std::mem::take" .. "}\n\n        Ok(())" => "verif_install_answers(&self.answers, new_answers);\n        "
     //@  ensures
     //@    r is Err ==> *final(self) == *old(self),                                                   // [http-rejected-leaves-no-trace]
     //@end
@@ -118,11 +144,15 @@ impl HttpsListener {
     //@  substall "ListenerError::HstsEnabledRequired" => "verif_hsts_required()"
     //@  subst "!patch.answers.is_empty()" => "!verif_answers_patch_is_empty(&patch.answers)"
     //@  cut_readonly "let mut candidate = self.config.clone();" .. "}\n            None => None," => "Some(verif_stage_rustls(&self.config, alpn_wrapper, &self.resolver)?)\n            "
-    //@  cut_readonly "let mut http_answers = self.config.http_answers.clone();" .. "} else {" => "Some(verif_stage_answers_https(&self.config, patch)?)\n        "
+    //@  subst "self.config.http_answers.clone()" => "verif_option_answers_clone(&self.config.http_answers)"
+    //@  subst "crate::sozu_command::state::merge_custom_http_answers(" => "merge_custom_http_answers("
+    //@  subst "for (code, body) in &patch.answers {\n                if !body.is_empty() {\n                    answers.insert(code.clone(), body.clone());\n                }\n            }" => "verif_merge_templates(&mut answers, &patch.answers);"
+    //@  subst "crate::protocol::http::answers::merge_legacy_into_map(" => "merge_legacy_into_map("
+    //@  resubst "HttpAnswers::new\\(&answers_map\\)\\s*\\.map_err\\(\\|\\(name, error\\)\\| ListenerError::TemplateParse\\(name, error\\)\\)" => "verif_template_err(HttpAnswers::new(&answers_map))"
+    //@  substall "std::mem::take(" => "verif_take("
     //@  substall "v.to_owned()" => "verif_string_clone(v)"
     //@  substall "alpn_wrapper.values.clone()" => "verif_vec_string_clone(&alpn_wrapper.values)"
     //@  drop_dassert 0 Vec<String> equality has no exec spec in Verus; the statement above it is the assignment it re-checks
-    //@  cut "let preserved = std::mem::take" .. "}\n\n        // HSTS: full-object" => "verif_install_answers(&self.answers, rebuilt);\n        "
     //@  cut "for _ in 0..refreshed {" .. "info!(" => ""
     //@  ensures
     //@    r is Err ==> *final(self) == *old(self),                                                   // [https-rejected-leaves-no-trace]
